@@ -925,8 +925,9 @@ func (w *World) doLose() {
 		} else {
 			w.StopSeen = append(w.StopSeen, "<nil>")
 		}
-	case <-time.After(30 * time.Second):
-		w.Deadlock = "the gateway did not stop within 30s after the messaging connection was lost"
+	case <-time.After(15 * time.Second):
+		// (Stop itself waits at most 3 s for the messaging client and 5 s for the HTTP server)
+		w.Deadlock = "the gateway did not stop within 15s after the messaging connection was lost"
 	}
 }
 
